@@ -293,6 +293,37 @@ func c02Run(b core.Batch, r *core.Recorder) {
 	r.Count("targets_keyed", int64(parsed))
 	r.Count("distinct_keys", int64(len(byKey)))
 
+	// origin-form request lines (what a client sends inside a CONNECT tunnel, or to the proxy with only a Host header):
+	// the host is named by the Host field alone. The same request line for two hosts, in both orders, must give two
+	// keys, and each must be the key the absolute form of that target gets.
+	{
+		originForm := func(method, host, target string) (string, bool) {
+			raw := fmt.Sprintf("%s %s HTTP/1.1\r\nHost: %s\r\n\r\n", method, target, host)
+			req, err := http.ReadRequest(bufio.NewReader(strings.NewReader(raw)))
+			if err != nil {
+				return "", false
+			}
+			return cache.MakeFromRequest(req).Hex, true
+		}
+		n := 0
+		for _, tgt := range []string{"/p", "/", "/dir/file?x=1", "/a%2Fb", "/p?"} {
+			for _, hosts := range [][2]string{{"host-a.example:443", "host-b.example:443"}, {"host-b.example:443", "host-a.example:443"}, {"127.0.0.1:8443", "127.0.0.1:9443"}, {"first.example", "second.example"}} {
+				ka, ok1 := originForm("GET", hosts[0], tgt)
+				kb, ok2 := originForm("GET", hosts[1], tgt)
+				if !ok1 || !ok2 {
+					continue
+				}
+				n++
+				r.Eval(1)
+				if ka == kb {
+					r.Violation("C02", "C02:collide:key-level:host:origin-form", fmt.Sprintf("GET %s with Host %s and then with Host %s (origin-form request lines, as inside a tunnel) get the same key", tgt, hosts[0], hosts[1]),
+						map[string]any{"id": "origin-form", "target": tgt, "hosts": hosts}, nil)
+				}
+			}
+		}
+		r.Count("origin_form_host_pairs", int64(n))
+	}
+
 	// the key is a function of the target alone: the same targets keyed from 8 goroutines at once give the keys
 	// they gave one at a time (a key computed in shared scratch space would hand one request another's entry)
 	{
